@@ -1,7 +1,7 @@
 """C08 - capacity-limit errors are clean: exception thrown, container untouched."""
 from .. import matrix
 from ..lib.core import AnalysisBroken
-from ..rules import shape
+from ..rules import shape, lifetime
 
 
 def run(tier, runner):
@@ -16,14 +16,17 @@ def run(tier, runner):
         raise AnalysisBroken('documented throw sites not found any more: %s' % sorted(missing))
     r_w = shape.widen(progs)
     r_geo, facts = shape.geo(progs)
+    r_cd = lifetime.check_dom(progs)
+    ob = lifetime.obligations([p for p in progs if p.meta.get('elem') != 'NTRtm'])
+    r_cd.require(20, 'constructs into container storage')
     r_tt.require(4, 'throw expressions of the vector headers')
     r_w.require(16, 'capacity requests')
     return {
-        'results': [r_tt, r_w, r_geo],
+        'results': [r_tt, r_w, r_geo, r_cd, ob['TEMP']],
         'explanation': 'THROW-TYPE: the only throw expressions of the vector headers are the fixed-capacity check (out_of_range, exactly when the request '
                        'exceeds the capacity), SafeNextCapacity and swap_sizetype (overflow_error) and at() (out_of_range exactly when idx >= size()).  '
                        'WIDEN: every size handed to a capacity check / grow is computed in a type wider than size_type or in 64 bits, per size_type '
                        'archetype, from the type of the instantiated expression.  GEO: SafeNextCapacity clamps at size_type max and throws before any effect.',
-        'assumptions': ['CHECK-DOM / TEMP (check dominates every mutation; no leaked temporary) are reported by the typestate rules, see evidence rules list'],
+        'assumptions': ['"contents exactly as before" is decided in its structural form: the limit check dominates every mutation (CHECK-DOM) and no temporary is leaked when it throws (TEMP)'],
         'trusted': ['clang 14 expression typing (integral promotion) in the instantiation', 'the amcsa plugin export'],
     }
